@@ -248,7 +248,7 @@ func c14(args []string) int {
 	for i, sp := range specs {
 		jobs[i] = &histJob{id: 100000 + i + 1, spec: sp}
 	}
-	runAll(jobs, 400)
+	runAll(jobs, 200)
 	for _, j := range jobs {
 		for _, f := range j.spec.Filters {
 			for _, v := range f.Verdicts {
